@@ -504,7 +504,13 @@ def check(ctx):
     # ---- R5: parting set-point ----------------------------------------------------------
     cl = m.func(CF, 'Crazyflie.close_link')
     cs = [c for c in walk_own(cl.node) if method_call(c, 'send_setpoint')]
-    ok = len(cs) == 1 and [fold_in(cl, a) for a in cs[0].args] == [0, 0, 0, 0] and norm(cs[0].func.value) == 'self.commander'
+    def _spread(args_):
+        out_ = []
+        for a_ in args_:
+            v_ = fold_in(cl, a_.value) if isinstance(a_, ast.Starred) else None
+            out_ += list(v_) if isinstance(v_, (tuple, list)) else [fold_in(cl, a_)]
+        return out_
+    ok = len(cs) == 1 and _spread(cs[0].args) == [0, 0, 0, 0] and norm(cs[0].func.value) == 'self.commander'
     ctx.inst('R5', cl, 'parting-setpoint', ok, 'close_link must send the all-zero attitude set-point; found %s' % [norm(c) for c in cs])
 
 
